@@ -550,6 +550,77 @@ def make_evidence(prop, tier, seed, level, cfg, harness, stats_all, engines_coun
     }
 
 
+def cmd_selftest(argv):
+    """vcheck.py selftest [harness ...] [--n N]: determinism self-test.  N generated tapes per harness are
+    replayed in one process in generation order and, in a second process, in reverse order; every tape
+    must give the same verdict, signature, classes, step count and case hash both times.  A difference means
+    that state leaks from one case into the next (or that a case depends on something outside its tape)."""
+    n = 300
+    hs = []
+    it = iter(argv)
+    for a in it:
+        if a == "--n":
+            n = int(next(it))
+        else:
+            hs.append(a)
+    hs = hs or list(HARNESSES)
+    bad = 0
+    for h in hs:
+        cfg = HARNESSES[h]
+        targets = vharness.targets_for(h, ["rc", "rp"])
+        try:
+            vbuild.build_targets(list(targets.values()) + vharness.extra_targets(h))
+        except BuildError as e:
+            print("BUILD-FAILED harness=%s\n%s" % (h, e))
+            return 2
+        scratch = mk_scratch()
+        try:
+            out = os.path.join(scratch, "gen")
+            os.makedirs(out, exist_ok=True)
+            known, _ = read_known()
+            known_path = os.path.join(scratch, "known.txt")
+            with open(known_path, "w") as f:
+                for k in known:
+                    f.write(k["signature"] + "\n")
+            env = base_env("", scratch, out, known_path)
+            env["RC_PARAMS"] = "seed=%d max_success=%d max_size=%d" % (4242, n, cfg["quick"]["rc_size"])
+            env["VH_DUMP_TAPES"] = str(n)
+            subprocess.run([targets["rc"].out], env=env, stdout=subprocess.DEVNULL, stderr=subprocess.DEVNULL, cwd=out, preexec_fn=_die_with_parent)
+            tapes = sorted(glob.glob(os.path.join(out, "gen-*.tape"))) + sorted(glob.glob(os.path.join(VERIF, "regress", h, "*.tape")))
+
+            def run(order, tag):
+                d = os.path.join(scratch, tag)
+                os.makedirs(d, exist_ok=True)
+                e2 = base_env("", scratch, d, known_path)
+                e2["VH_SELFTEST"] = "1"
+                p = subprocess.run([targets["rp"].out] + order, env=e2, stdout=subprocess.PIPE, stderr=subprocess.STDOUT, cwd=d, preexec_fn=_die_with_parent)
+                res = {}
+                cur = None
+                for line in p.stdout.decode("utf-8", "replace").splitlines():
+                    m = re.match(r"REPLAY (\S+) (verdict=\d ntok=\d+ nontrivial=\w+ other_fail=\w+ excluded=\w+ sig=.*)$", line)
+                    if m:
+                        cur = m.group(1)
+                        res[cur] = re.sub(r"0x[0-9a-f]{6,}", "PTR", m.group(2))
+                    m = re.match(r"SELFTEST (\S+) (.*)$", line)
+                    if m:
+                        res[m.group(1)] += " " + m.group(2)
+                return res, p.returncode
+
+            r1, rc1 = run(tapes, "fwd")
+            r2, rc2 = run(list(reversed(tapes)), "rev")
+            diffs = [t for t in tapes if r1.get(t) != r2.get(t)]
+            print("selftest harness=%s tapes=%d differing=%d" % (h, len(tapes), len(diffs)))
+            for t in diffs[:5]:
+                keep = os.path.join(VERIF, "findings", "selftest-%s-%s" % (h, os.path.basename(t)))
+                os.makedirs(os.path.dirname(keep), exist_ok=True)
+                shutil.copy(t, keep)
+                print("  %s\n    fwd: %s\n    rev: %s" % (keep, r1.get(t), r2.get(t)))
+            bad += len(diffs)
+        finally:
+            shutil.rmtree(scratch, ignore_errors=True)
+    return 1 if bad else 0
+
+
 def cmd_replay(argv):
     harness = argv[0]
     if harness in PROP2HARNESS:
@@ -609,6 +680,8 @@ def main():
         return cmd_setup()
     if a[0] == "replay":
         return cmd_replay(a[1:])
+    if a[0] == "selftest":
+        return cmd_selftest(a[1:])
     prop = a[0]
     tier = "quick"
     if "--tier" in a:
